@@ -20,7 +20,8 @@ EXPLANATION = (
     "{'lon': origin[0], 'lat': origin[1]} in polygon order, from_dict reads [lon, lat] in list order, passes dh "
     "through and applies no order-changing operation (unique/sort/set) before from_origins; the catalog's "
     "region_loader knows every region class that writes a class_id. NOT decided: JSON representability of each "
-    "stored value (numpy scalars fall to default=str, tuples become lists).")
+    "stored value (numpy scalars fall to default=str, tuples become lists). "
+    "Also decided (round 5): D5.todict to_dict stores nothing on the region and returns a fresh dictionary; D5.fromdict from_dict returns the region built from its argument (no class-level table).")
 CLAUSES = {'D1': 'factory exhaustiveness', 'D2': 'field agreement', 'D3': 'construction sites', 'D4': 'json plumbing', 'D5': 'region dictionary'}
 TRUSTED = ['CPython ast', 'json.dump / json.load', 'class hierarchy read from the source (no metaclasses)']
 ROOTS = ['csep.load_evaluation_result', 'csep.core.repositories.write_json', 'csep.core.repositories.FileSystem.save',
